@@ -327,6 +327,9 @@ func newAggrQuantileFunc(args []Expression) (AggrFunction, error) {
 	if percent > 1.0 {
 		return nil, NewExecuteError(args[1].GetPos(), "quantile function second parameter type should be less than 1")
 	}
+	if percent < 0.0 {
+		return nil, NewExecuteError(args[1].GetPos(), "quantile function second parameter type should not be negative")
+	}
 	stream := quantile.NewTargeted(map[float64]float64{
 		percent: 0.0001,
 	})
